@@ -58,7 +58,16 @@ def gen_trace(rng, nlines):
         us = rng.choice([0, 1, 999999, 100000]) if edge else rng.randint(0, 999999)
         return "%04d-%02d-%02d %02d:%02d:%02d.%06d" % (y, mo, d, h, mi, sec, us)
     word = lambda: "".join(rng.choice("abcdefXYZ_0123456789") for _ in range(rng.randint(1, 8)))
-    bodies = ["[%s] e->%s() %s->%s" % (word(), rng.choice(["start_at", word()]), word(), word()) for _ in range(nlines)]
+
+    def chart_name():
+        r = rng.random()
+        if r < 0.8:
+            return word()
+        if r < 0.9:
+            # digits, dashes, colons and dots of OTHER scripts / widths: not a timestamp
+            return "".join(rng.choice("\u0664\u0662\uff14\uff12\u0be7\u0e51\u0e52\u06f4\uff1a\uff0e\u2010\u2212\u00b2\u2460") for _ in range(rng.randint(1, 5)))
+        return rng.choice(["caf\u00e9", "unit 7", "a-b", "v1.2", "12:30", "x:y", "\u00e9\u00e8", "\u4e2d\u6587", "n\u00b0 5"])
+    bodies = ["[%s] e->%s() %s->%s" % (chart_name(), rng.choice(["start_at", word()]), word(), word()) for _ in range(nlines)]
     return bodies, ["[%s] %s" % (ts(), b) for b in bodies]
 
 
@@ -81,6 +90,12 @@ def explore_strip(run, n_random):
         for t in (t1, t2):
             inputs.append(t)
             metas.append(("trace", bodies))
+        # the same trace kept WITHOUT its timestamps (a stored specification, stripped again when it is compared): lines whose
+        # chart name is not made of the timestamp's own characters are left as they are
+        if n >= 2 and all(re.search(r"^\[[^\]]*[^0-9\-:. \]][^\]]*\]", b) for b in bodies):
+            inputs.append("\n".join(bodies) + "\n")
+            metas.append(("trace", bodies))
+            run.count("strip input: trace without timestamps")
     # (b) arbitrary strings around the regex's corner cases
     frag = ["[", "]", "] ", " ", "2017-11-05 15:17:39.424492", "x", "\n", "\r", "\t", "[1]", "[1] ", "[1] a", "  [12:3] b c", "[a] z", "[1]  ",
             "[1] \n", "[] x", "[1-2.3:4 5] [n] e->A() s->t", "\x0b", " ", "é"]
@@ -241,6 +256,16 @@ def stmt_class(s):
     return "other"
 
 
+def mtsa_pattern():
+    """the operator pattern of the library as it is now (falls back to the pinned text)"""
+    import inspect
+    try:
+        m = re.search(r"re\.search\(r?'([^']+)'", inspect.getsource(mtsa.ThreadSafeAttribute.is_not_atomic))
+        return m.group(1)
+    except Exception:  # noqa
+        return r"([+-/*@^&|<>%]=)|([/<>*]{2}=)"
+
+
 def explore_stmts(run, n_random):
     rng = run.rng
     stmts = [gen_stmt(rng) for _ in range(n_random)]
@@ -292,6 +317,65 @@ def explore_stmts(run, n_random):
                     run.violate("C28/lock-leak/%s" % stmt_class(s),
                                 "after the statement `%s` the calling thread still holds the attribute's lock (%d acquisition(s))" % (line, leak), cj)
             run.case(cj, nontrivial=True)
+        # the same statements laid out over two physical lines (backslash continuation, or a break inside brackets): the
+        # descriptor looks at the physical line that holds the attribute access; the property is about the statement
+        op_re = re.compile(mtsa_pattern())
+        plain = [s for s in stmts if s[0] != "comment"]
+        lay_src = ["def f(a):\n    return 3\n"]
+        lay = []
+        for k in range(min(len(plain), max(40, n_random // 3))):
+            s = rng.choice(plain)
+            line = render_stmt(s)
+            cuts = [i for i, ch in enumerate(line) if ch == " "]
+            if not cuts:
+                continue
+            c = rng.choice(cuts)
+            depth = line[:c].count("(") + line[:c].count("[") - line[:c].count(")") - line[:c].count("]")
+            first, second = line[:c], line[c + 1:]
+            if depth > 0 and rng.random() < 0.5:
+                text = "%s\n        %s" % (first, second)
+                form = "break inside brackets"
+            else:
+                text = "%s \\\n        %s" % (first, second)
+                form = "backslash continuation"
+            lay.append((s, text, form, [first, second]))
+            lay_src.append("def m%d(o, v0, v1, v2, d):\n    %s\n" % (len(lay) - 1, text))
+        path4 = os.path.join(VERIF, "harness", "_gen_layout_%d.py" % os.getpid())
+        with open(path4, "w") as fh:
+            fh.write("\n".join(lay_src))
+        try:
+            spec4 = importlib.util.spec_from_file_location("_gen_layout", path4)
+            mod4 = importlib.util.module_from_spec(spec4)
+            spec4.loader.exec_module(mod4)
+            for i, (s, text, form, phys) in enumerate(lay):
+                class Obj5(metaclass=mtsa.MetaThreadSafeAttributes):
+                    _attributes = ["x"]
+                o5 = Obj5()
+                desc5 = Obj5.__dict__["x"]
+                desc5._lock = dsched.DRLock()
+                d = {0: 7, 1: 8, 2: 9, 3: 1, 4: 2, 5: 3, 6: 4, 7: 5, 8: 6, 9: 0, "k0": 1, "k1": 2}
+                for kk in range(0, 4000):
+                    d.setdefault(kk, kk)
+                err = None
+                try:
+                    getattr(mod4, "m%d" % i)(o5, 1, 2, 3, d)
+                except Exception as ex:  # noqa
+                    err = type(ex).__name__
+                leak = desc5._lock._count
+                cj = {"what": "stmt-layout", "stmt": text}
+                run.traces_validated += 1
+                same_line = any("o.x" in ph and op_re.search(ph) for ph in phys)
+                run.count("two-line statement (%s), operator %s" % (form, "on the attribute's line" if same_line else "not on the attribute's line"))
+                if err is None and leak:
+                    cls = stmt_class(s) if same_line else "operator-only-on-another-physical-line"
+                    run.violate("C28/lock-leak/%s" % cls, "after the two-line statement `%s` the calling thread still holds the attribute's "
+                                "lock (%d acquisition(s))" % (text.replace("\n", "\\n"), leak), cj)
+                run.case(cj, nontrivial=True)
+        finally:
+            try:
+                os.unlink(path4)
+            except OSError:
+                pass
         # the same attribute used by ANOTHER statement at the same file and line (an edited and reloaded module):
         # the verdict on a statement must come from the text that is running now
         import linecache
@@ -400,8 +484,33 @@ def explore_stmts(run, n_random):
 # C26 dumps / loads
 # ---------------------------------------------------------------------------
 
+def text_shaped_string(rng, depth):
+    """a str whose content is itself some data notation (a JSON text, a Python repr, a number, a keyword, a date, markup...):
+    a payload is data, whatever it looks like"""
+    k = rng.randrange(9)
+    if k == 0:
+        return json.dumps(gen_json(rng, max(0, depth - 1)))
+    if k == 1:
+        return json.dumps(rng.choice([[], {}, [1, 2, 3], {"a": 1}, [[]], {"signal_name": "A", "payload": None}, "s", [None]]))
+    if k == 2:
+        return repr(gen_json(rng, max(0, depth - 1)))
+    if k == 3:
+        return rng.choice(["null", "true", "false", "None", "True", "NaN", "Infinity", "-Infinity", "undefined", "nan"])
+    if k == 4:
+        return rng.choice(["0", "-1", "1e5", "0x10", "1.0", "007", "1_000", str(rng.randint(-10 ** 9, 10 ** 9)), str(rng.random())])
+    if k == 5:
+        return rng.choice(["2024-02-29", "2024-02-29T12:00:00Z", "12:00:00.000001", "1970-01-01 00:00:00"])
+    if k == 6:
+        return rng.choice([" []", "[] ", "\n{}", "{\"a\": 1}\n", "\t1", "[1, 2", "{not json}", "[", "{", "\"quoted\"", "'single'", "b'bytes'"])
+    if k == 7:
+        return rng.choice(["<a>", "&amp;", "%s", "{0}", "${x}", "\\u0041", "\\n", "\x00", "\x7f", "\u2028", "\ufeff[]"])
+    return json.dumps(json.dumps(gen_json(rng, max(0, depth - 1))))     # serialised twice
+
+
 def gen_json(rng, depth):
     r = rng.random()
+    if r < 0.12:
+        return text_shaped_string(rng, depth)
     if depth == 0 or r < 0.45:
         return rng.choice([None, True, False, 0, -1, 2 ** 70, -0.0, 1.5, 1e-7, 1e300, "", "a", "é \"\\\n", "x" * 40, rng.randint(-10 ** 6, 10 ** 6),
                            rng.random()])
@@ -444,6 +553,9 @@ def explore_json(run, n_random):
             # legal text that is not in a Unicode normal form (decomposed / compatibility characters, marks out of order)
             name = rng.choice(ODD_UNICODE_NAMES)
             run.count("signal name that is not NFC / NFKC normalised")
+        elif rng.random() < 0.1:
+            name = text_shaped_string(rng, 1)[:60] or "A"
+            run.count("signal name that is itself some data notation")
         payload = gen_json(rng, 3)
         known_before = name in mevent.signals
         cj = {"what": "json", "name": name, "payload": repr(payload)[:200]}
@@ -457,6 +569,8 @@ def explore_json(run, n_random):
             continue
         run.traces_validated += 1
         run.count("payload " + type(payload).__name__)
+        if isinstance(payload, str) and len(payload) > 1 and payload[0] in "[{\"":
+            run.count("payload is a str holding bracketed / quoted text")
         if back.signal_name != name:
             run.violate("C26/name", "loads(dumps(e)).signal_name is %r, expected %r" % (back.signal_name, name), cj)
         if not json_equal(back.payload, payload):
